@@ -1,6 +1,8 @@
 """C15 - faults and early terminations are always paid for."""
 from core import *
 from rules import *
+import provtable
+from props.provspecs import SPECS
 import sends as sendsmod
 
 LEVEL = 'other'
@@ -219,6 +221,9 @@ def run(prog, rep, tier, cfg):
              not DT.ok_returns_from([cs[0][0].arms[cs[0][1]]], blocked={sets[0].bb}),
              'when a partition terminated sectors the deadline-level flag is set on every success path', X.loc(DT))
 
+    # ---- frozen provenance table of the partition / deadline / expiration-queue summaries (tables/prov_miner_partition.json)
+    n = provtable.check(X, 'K10', 'summary', SPECS['miner_partition'], provtable.load_table('prov_miner_partition.json'), only_keys=[r'faulty_power', r'fee', r'^ret:', r'early'])
+    rep.floor('K10', 'summary_update_sites', n, 80)
 
 def ret_components(prog, f, idx):
     """atoms (narrow) of component idx of every `Ok((..))` tuple returned by f"""
